@@ -327,12 +327,21 @@ def confirm_slow(mode, src):
 
 
 # KNOWN: genuine violations of C04 on the current HEAD, reported and excluded so that the stand-ins pass until they are fixed.
-# Each entry: the minimal failing input, what was observed, the clause it breaks, and `applies(src, status, payload)` -- the
-# (deliberately narrow) condition under which a failure seen in a *random* family (mutants, garbage, random programs) is
-# attributed to this entry instead of being reported.  The generated families exclude these inputs by construction (see
-# `PRIMITIVE_ONLY` and `NEST_CAPS`).  Delete an entry once the defect is fixed: the regression list below then covers it.
-CAST_RE = re.compile(r'\b(int|float|str|bool)\s*\(')
-CAST_PANICS = ('entered unreachable code', 'BUG: stack underflow', 'BUG: all branches should return', 'BUG: expected ')
+# Each entry is a dict(id, input, observed, clause, applies) -- `applies(src, status, payload)` is the (deliberately narrow) condition under
+# which a failure seen in a *random* family (mutants, garbage, random programs) is attributed to the entry instead of being reported.
+# History (fixed, now regression cases in REGRESSIONS / NEST_CAPS):
+#   cast-of-composite                  `let x = int([]);` panicked at an unreachable! (any cast of a list / tuple / func / module / constraint); fixed by ade6507
+#   parse-time-exponential-in-nesting  `let x = ((((((((((1))))))))));` took 45 s to parse, x4 per level; fixed by aa675cd
+EOF_PARENS_RE = re.compile(r'\({12,}\s*(//[^\n]*)?[-+*/]?\s*$')
+KNOWN = [
+    dict(id='parse-time-exponential-open-parens-at-end-of-input',
+         input='let x = ((((((((((((((((((',
+         observed='a text that ENDS after k nested `(` (optionally followed by blanks, a comment or a dangling operator) takes time x2 per level to be rejected: k = 16: 2.5 s, '
+                  'k = 18: 9 s (debug build, driver `ast` and `ucg build`), k = 60 does not finish; `((((((((((((((((((` alone, `let x = 1 + ((((...`, `let x = f((((...` and '
+                  '`let x = [((((...` behave the same, unclosed `[` / `{a = ` / `not` / `func() =>` chains and `((((...1;` are rejected at once (left over after aa675cd)',
+         clause='"None ... fails to terminate" for arbitrary text with nesting <= 64 levels',
+         applies=lambda src, st, pl: st == 'TIMEOUT' and EOF_PARENS_RE.search(src) is not None),
+]
 
 
 def max_nesting(src):
@@ -346,21 +355,6 @@ def max_nesting(src):
     return m
 
 
-KNOWN = [
-    dict(id='cast-of-composite',
-         input='let x = int([]);',
-         observed='panic `internal error: entered unreachable code` (src/build/opcode/vm.rs, cast opcode; exit status 101 from `ucg build`); the same for '
-                  'int/float/str/bool applied to any list, tuple, func, module, range or named constraint; inside assert / out / TRACE / filter / reduce '
-                  'it surfaces as `BUG: stack underflow in ...`',
-         clause='"None panics" / "a failed cast is a compile error" (expressions.md, Casting)',
-         applies=lambda src, st, pl: st in ('PANIC', 'CRASH') and CAST_RE.search(src) is not None and any(m in pl for m in CAST_PANICS + ('exit status 101',))),
-    dict(id='parse-time-exponential-in-nesting',
-         input='let x = ((((((((((1))))))))));',
-         observed='10 levels of ( ) / [ ] / { } nesting take ~45 s to parse (debug build), every further level x4; prefix forms (func, not, TRACE, select, '
-                  'module, casts, calls) x2 per level: 16 levels ~4 s',
-         clause='"None ... fails to terminate" for nesting <= 64 levels',
-         applies=lambda src, st, pl: st == 'TIMEOUT' and max_nesting(src) >= 7),
-]
 # inputs outside the property's quantifier ("Excluded: nesting deeper than 64 levels, module self-recursion without a base case,
 # ranges longer than 10^6"): a stack overflow / hang is attributed to them only under these conditions
 RECURSION_RE = re.compile(r'\bthis\b|\bpkg\b|import\s+"std/')
@@ -549,7 +543,7 @@ GARBAGE_FIXED = [
     'let x = [1]."0";', 'let x = [1].0.0;', 'let x = [1].1.0;', 'let x = [[1]].0.0;', 'let x = {a = 1}.0;', 'let x = "abc".0;', 'let x = "abc".a;',
     'let x = 1.a;', 'let x = 1 .a;', 'let x = NULL.a;', 'let x = true.a;', 'let x = (func() => 1).a;', 'let x = env.;', 'let x = env."";', 'let x = env.0;',
     'let x = env.(1);', 'let x = self;', 'let x = self.a;', 'let x = mod;', 'let x = mod.this;', 'let x = mod.pkg;', 'let x = mod.pkg();', 'let x = item;',
-    'let x = this;', 'let x = "' + 'é' * 300 + '";', 'let x = "' + '\\' * 301 + '";', '/' * 500, '"' * 501, '\\' * 400, '(' * 6, '[' * 60 + ';', '{' * 60,
+    'let x = this;', 'let x = "' + 'é' * 300 + '";', 'let x = "' + '\\' * 301 + '";', '/' * 500, '"' * 501, '\\' * 400, '(' * 10, 'let x = ' + '(' * 10, '[' * 60 + ';', '{' * 60,
     ')' * 60, 'let x = ' + '(' * 60 + '1;', 'let x = 1' + ')' * 60 + ';', '// ' + 'c' * 1000, '//\r', '//\r\n//\n//', 'let x = 1;//', '"\n\n\n', '"\r\n',
 ]
 
@@ -609,7 +603,7 @@ def standin_garbage(tier, seed):
 # ------------------------------------------------------------------ (c) generated programs hitting the edge cases the property names
 IMAX = '9223372036854775807'
 IMIN = '(0 - 9223372036854775807 - 1)'
-# value snippets of every type; PRIMITIVE_ONLY marks those a cast may be applied to (casts of the others are KNOWN cast-of-composite)
+# value snippets of every type
 PRIMS = ['0', '1', '2', IMAX, IMIN, '(0 - 1)', '0.0', '1.5', '.5', '1.', '(1.0 / 0.0)', '(0.0 / 0.0)', '""', '"a"', '"@"', '"é"', '"\\\\"', '"1"', '" 1"',
          '"1.5"', '"abc"', '"99999999999999999999"', '"-1"', '"+1"', '"nan"', '"inf"', '"1e400"', '"0x10"', '"1_000"', '"true"', '"TRUE"', '"false"', '"yes"',
          'true', 'false', 'NULL', '(1 == 1)']
@@ -617,7 +611,6 @@ COMPOSITES = ['[]', '[1]', '[1, "a"]', '[[1]]', '[NULL]', '{}', '{a = 1}', '{"a 
               'func(a, b) => a + b', 'module{} => {}', 'module{a = 1} => (a) {let a = mod.a;}', 'env', '(0:3)', 'f', 'm', 'c']
 ODD_NAMES = ['str', 'self', 'mod', 'item', 'undefined_name']
 VALUES = PRIMS[:20] + PRIMS[-4:] + COMPOSITES + ODD_NAMES
-PRIMITIVE_ONLY = set(PRIMS)
 PRE = 'let f = func(a, b) => a; let m = module{a = 1} => {let b = mod.a;}; constraint c = 1 | 2;\n'
 OPS = ['+', '-', '*', '/', '%%', '==', '!=', '>=', '<=', '<', '>', '~', '!~', 'in', 'is', '&&', '||', '.']
 EXPR_TEMPLATES = [
@@ -642,30 +635,30 @@ BAD_PATTERNS = ['(', ')', '[', ']', '*', '+', '?', '{', 'a{1', 'a{2,1}', 'a{1000
 EDGE_INTS = ['0', '1', '(0 - 1)', '2', IMAX, IMIN, '3037000500', '4294967296']
 FMT_TEMPLATES = ['', '@', '@ @', 'a@b@c@', '\\\\@', '\\\\\\\\@', 'x', '@@', ' @ ', '@{', '@{}', '@{item', '@{item}', '@{item.a}', '@{1 +}', '@{item} @', '@{@}', '@{"@"}',
                  '@{item.0} @{item.1}', '@{fail "x"}', '@{1 / 0}', '@{' + '(' * 5 + 'item' + ')' * 5 + '}', '{item}', '}@{', '@' * 50]
-# nesting: (name, builder(depth), cap) -- cap = the deepest level exercised.  The property covers <= 64 levels; brackets are capped at 6 and prefix forms at 12
-# because of KNOWN parse-time-exponential-in-nesting (each case must stay well under PER_CASE); chains whose parse time is linear go to 60.
+# nesting: (name, builder(depth), cap) -- cap = the deepest level exercised: 60 (the property covers <= 64 levels), except where the VALUE itself grows
+# exponentially with the depth (`convert json convert json ... 1` doubles its escaped text at every level: 2^d characters are inherent, capped at 12).
 NEST_CAPS = [
-    ('parens', lambda d: 'let x = ' + '(' * d + '1' + ')' * d + ';', 6),
-    ('lists', lambda d: 'let x = ' + '[' * d + '1' + ']' * d + ';', 6),
-    ('tuples', lambda d: 'let x = ' + '{a = ' * d + '1' + '}' * d + ';', 6),
-    ('mixed', lambda d: 'let x = ' + '[{a = (' * (d // 3) + '1' + ')}]' * (d // 3) + ';', 6),
-    ('selector_chain', lambda d: 'let t = ' + '{a = ' * d + '1' + '}' * d + '; let x = t' + '.a' * d + ';', 6),
-    ('copies', lambda d: 'let t = ' + '{a = ' * d + '1' + '}' * d + '; let x = t' + '{a = self.a' * (d - 1) + '{a = 2}' + '}' * (d - 1) + ';', 6),
-    ('shape_lists', lambda d: 'let x :: ' + '[' * d + '0' + ']' * d + ' = ' + '[' * d + '1' + ']' * d + ';', 5),
-    ('shape_tuples', lambda d: 'let x :: ' + '{a = ' * d + '0' + '}' * d + ' = ' + '{a = ' * d + '1' + '}' * d + ';', 5),
-    ('shape_fields', lambda d: 'let x = ' + '{a :: {a = 0} = ' * d + '{a = 0}' + '}' * d + ';', 4),
-    ('recursive_constraint', lambda d: 'constraint t = "" | {k = [t]}; let x :: t = ' + '{k = [' * d + '"s"' + ']}' * d + ';', 3),
-    ('funcs', lambda d: 'let x = ' + 'func() => ' * d + '1;', 12),
-    ('func_args', lambda d: 'let x = ' + ''.join('func(a%d) => ' % i for i in range(d)) + 'a0;', 12),
-    ('nots', lambda d: 'let x = ' + 'not ' * d + 'true;', 12),
-    ('traces', lambda d: 'let x = ' + 'TRACE ' * d + '1;', 12),
-    ('calls', lambda d: 'let f = func(a) => a; let x = ' + 'f(' * d + '1' + ')' * d + ';', 10),
-    ('casts', lambda d: 'let x = ' + 'str(' * d + '1' + ')' * d + ';', 10),
-    ('selects', lambda d: 'let x = ' + 'select (true, 0) => {true = ' * d + '1' + '}' * d + ';', 10),
-    ('modules', lambda d: 'let x = ' + 'module{} => { let a = ' * d + '1' + '; }' * d + ';', 10),
-    ('formats', lambda d: 'let x = ' + '"@" % (' * d + '1' + ')' * d + ';', 12),
+    ('parens', lambda d: 'let x = ' + '(' * d + '1' + ')' * d + ';', 60),
+    ('lists', lambda d: 'let x = ' + '[' * d + '1' + ']' * d + ';', 60),
+    ('tuples', lambda d: 'let x = ' + '{a = ' * d + '1' + '}' * d + ';', 60),
+    ('mixed', lambda d: 'let x = ' + '[{a = (' * (d // 3) + '1' + ')}]' * (d // 3) + ';', 60),
+    ('selector_chain', lambda d: 'let t = ' + '{a = ' * d + '1' + '}' * d + '; let x = t' + '.a' * d + ';', 60),
+    ('copies', lambda d: 'let t = ' + '{a = ' * d + '1' + '}' * d + '; let x = t' + '{a = self.a' * (d - 1) + '{a = 2}' + '}' * (d - 1) + ';', 60),
+    ('shape_lists', lambda d: 'let x :: ' + '[' * d + '0' + ']' * d + ' = ' + '[' * d + '1' + ']' * d + ';', 60),
+    ('shape_tuples', lambda d: 'let x :: ' + '{a = ' * d + '0' + '}' * d + ' = ' + '{a = ' * d + '1' + '}' * d + ';', 60),
+    ('shape_fields', lambda d: 'let x = ' + '{a :: {a = 0} = ' * d + '{a = 0}' + '}' * d + ';', 60),
+    ('recursive_constraint', lambda d: 'constraint t = "" | {k = [t]}; let x :: t = ' + '{k = [' * d + '"s"' + ']}' * d + ';', 60),
+    ('funcs', lambda d: 'let x = ' + 'func() => ' * d + '1;', 60),
+    ('func_args', lambda d: 'let x = ' + ''.join('func(a%d) => ' % i for i in range(d)) + 'a0;', 60),
+    ('nots', lambda d: 'let x = ' + 'not ' * d + 'true;', 60),
+    ('traces', lambda d: 'let x = ' + 'TRACE ' * d + '1;', 60),
+    ('calls', lambda d: 'let f = func(a) => a; let x = ' + 'f(' * d + '1' + ')' * d + ';', 60),
+    ('casts', lambda d: 'let x = ' + 'str(' * d + '1' + ')' * d + ';', 60),
+    ('selects', lambda d: 'let x = ' + 'select (true, 0) => {true = ' * d + '1' + '}' * d + ';', 60),
+    ('modules', lambda d: 'let x = ' + 'module{} => { let a = ' * d + '1' + '; }' * d + ';', 60),
+    ('formats', lambda d: 'let x = ' + '"@" % (' * d + '1' + ')' * d + ';', 60),
     ('converts', lambda d: 'let x = ' + 'convert json ' * d + '1;', 12),
-    ('fails', lambda d: 'let x = ' + 'fail ' * d + '"m";', 12),
+    ('fails', lambda d: 'let x = ' + 'fail ' * d + '"m";', 60),
     ('sum_chain', lambda d: 'let x = ' + '1 + ' * d + '1;', 60),
     ('mixed_chain', lambda d: 'let x = ' + '1 + 2 * ' * d + '1;', 60),
     ('compare_chain', lambda d: 'let x = ' + '1 == ' * d + '1;', 60),
@@ -692,6 +685,9 @@ NEST_CAPS = [
 ]
 # inputs that once crashed or hung (all fixed on HEAD; see known_findings.txt) -- kept as regression cases
 REGRESSIONS = [
+    'let x = int([]);', 'let x = str({a = 1});', 'let f = func(a) => a; let x = bool(f);', 'constraint c = 1 | 2; let x = float(c);', 'let x = int(0:3);', 'assert str({});',
+    'out exec int(func() => 1);', 'let x = TRACE float(module{} => {});', 'let x = ((((((((((1))))))))));', 'let x = [[[[[[[[[[[[1]]]]]]]]]]]];', '(((((((((',
+    'constraint t = "" | {k = [t]}; let x :: t = {k = [{k = [{k = [{k = ["s"]}]}]}]};',
     'let x = 1 / 0;', 'let x = 7 %% 0;', 'let x = 9223372036854775807 + 1;', 'let x = (0 - 9223372036854775807 - 1) / (0 - 1);', 'let x = (0 - 9223372036854775807 - 1) %% (0 - 1);',
     'let x = 9223372036854775807 * 2;', 'let x = 0 - 9223372036854775807 - 2;', 'let x = 9223372036854775806:9223372036854775807;', 'let x = 9223372036854775800:3:9223372036854775807;',
     'let x = "" % (1);', 'let x = "@ @" % (1);', 'let x = "@" % (1, 2);', 'let x = "" % ();',
@@ -739,8 +735,8 @@ def r_expr(r, d):
         return '%s(%s, %s)' % (r.choice(['map', 'filter']), e(), e())
     if k == 9:
         return 'reduce(%s, %s, %s)' % (e(), e(), e())
-    if k == 10:     # casts only of primitives: casts of composite values are KNOWN cast-of-composite
-        return '%s(%s)' % (r.choice(['int', 'float', 'str', 'bool']), r.choice(R_ATOMS[:15]))
+    if k == 10:
+        return '%s(%s)' % (r.choice(['int', 'float', 'str', 'bool']), e())
     if k == 11:
         return '"%s" %% (%s)' % (r.choice(['', '@', '@ @', 'x', '\\\\@', '@{item}', '@@@']), ', '.join(e() for _ in range(r.randint(0, 3))))
     if k == 12:
@@ -829,7 +825,8 @@ def gen_edge_families():
     """{family: [program, ...]} -- every family is enumerated completely here; the tiers sample from it."""
     fam = {}
     fam['regressions'] = list(REGRESSIONS)
-    fam['casts_of_garbage'] = [PRE + 'let x = %s(%s);' % (c, v) for c in ['int', 'float', 'str', 'bool'] for v in PRIMS]      # composite operands: KNOWN
+    fam['casts_of_garbage'] = [PRE + 'let x = %s(%s);' % (c, v) for c in ['int', 'float', 'str', 'bool'] for v in PRIMS + COMPOSITES + ODD_NAMES]
+    fam['casts_of_garbage'] += [PRE + t % (c, v) for c in ['int', 'float', 'str', 'bool'] for v in ['[]', '{a = 1}', 'f', 'm', 'c', '(0:3)'] for t in ['assert %s(%s);', 'out json %s(%s);', 'let x = TRACE %s(%s);', 'let x = filter(func(a) => a, %s(%s));', 'let x = reduce(func(a, b) => a, 0, %s(%s));', 'let x = [%s(%s)];', 'let x = "@" %% (%s(%s));']]
     ex = []
     for t in EXPR_TEMPLATES:
         for v in VALUES:
@@ -927,8 +924,8 @@ def standin_generated_edges(tier, seed):
     bin_srcs = [s for i, s in enumerate(srcs) if (not thorough) or i % 2 == 0 or s in keep]
     test_srcs = [s for s in bin_srcs if 'assert' in s]
     bound = ('generated programs: ' + ', '.join('%s %d/%d' % (k, a, b) for k, (a, b) in sorted(counts.items())) + ', %d seeded grammar-random programs (depth <= 4); '
-             'all through driver eval, %d through the real `ucg build` (type checker + VM), %d with asserts through `ucg test`; nesting <= 6 levels for brackets, <= 12 '
-             'for prefix forms, <= 60 for chains (deeper: KNOWN parse-time-exponential-in-nesting); casts only of primitive operands (composite: KNOWN cast-of-composite)'
+             'all through driver eval, %d through the real `ucg build` (type checker + VM), %d with asserts through `ucg test`; every bracket / prefix / '
+             'chain form nested up to 60 levels (depths 1, 2, 3, 30, 59, 60)'
              % (n_rand, len(bin_srcs), len(test_srcs)))
     work = tempfile.mkdtemp(prefix='verif_c04e_')
     try:
